@@ -334,7 +334,12 @@ def gen_mapfile(r, ids, hdf5_safe=False, full_cover=False):
                 if r.random() < .2 and not hdf5_safe:
                     v = '"' + v + ' "'
             elif k == 'int':
-                v = r.choice(['0', '3', '-3', '+4', '12', '-0'])
+                v = r.choice(['0', '3', '-3', '+4', '12', '-0', '007', '010',
+                              '08', '-01', '00'])
+                if not hdf5_safe and r.random() < .1:
+                    # what Python's int() does not read as a decimal
+                    # integer stays text
+                    v = r.choice(['0x1F', '0b11', '0o17', '1e3', '1,000'])
                 if not hdf5_safe and r.random() < .15:
                     v = r.choice(['3.5', 'NA'])
                 if v[0] in '+-':
